@@ -84,7 +84,7 @@ any other registers, any context `x`) makes exactly `|H|` silent state-function 
 followed by the rest of the same action list (`emit_tag`, if the terminator is `>`, and the
 transition). `lexeme_start` is still `bm.pos` and the feedback directive is still the bookmark's. -/
 theorem C06_relex_same_tag (env : Env κ) (L : Labels) (TT : TLabels) (P : PLabels) (S : SLabels) (Pend : κ → Bool)
-    (hlaw : PendLaw env.ops Pend) (hside : RelexSide env.tbl L TT P S) (inp : Bytes) (n : Nat) (ms : M κ)
+    (hlaw : PendLaw env.ops Pend true) (hside : RelexSide env.tbl L TT P S) (inp : Bytes) (n : Nat) (ms : M κ)
     (hs : ScanAll env L TT P S Pend inp ms) (d : Directive) (bm : Bookmark)
     (hrun : (runLoop env inp n ms).2 = .directive d bm) :
     d = .lex ∧ ∃ G : RG, RGOk env.tbl L S G ∧ (G.H ++ [G.term]) <+: inp.drop bm.pos ∧ shapeB .name G.H = true ∧
